@@ -5,7 +5,12 @@ package vspec
 import (
 	"bytes"
 	"encoding/binary"
+	"errors"
+	"fmt"
 )
+
+var _ = errors.New
+var _ = fmt.Errorf
 
 var _ = bytes.Equal
 var _ = binary.BigEndian
@@ -35,4 +40,14 @@ var _ = binary.BigEndian
 //@ ensures eq == (string(a) == string(b))
 //@ assigns none
 //@ pure
+//@ end
+
+//@ ext fmt.Errorf func(format string, a []any) (err error)
+//@ ensures err != nil
+//@ assigns none
+//@ end
+
+//@ ext errors.New func(text string) (err error)
+//@ ensures err != nil
+//@ assigns none
 //@ end
